@@ -485,7 +485,7 @@ def judge_c13(plan, result):
     st = {"calls": 0, "applies": 0, "judged_must_error": 0, "errored_as_required": 0,
           "classes": {}, "reasons": {}, "outcomes": {"PASS": 0, "FAIL": 0, "NOVERDICT": 0},
           "entry_requests": 0, "entry_must_reject": 0, "transitions": {}, "dead_before_apply": 0,
-          "error_classes": {}, "undefined_kinds": {}, "independent_undefined": {}}
+          "error_classes": {}, "undefined_kinds": {}, "independent_undefined": {}, "interrupted": {}}
     archdefs = {}  # obj -> LayerDefModel of an accepted, finished definition
     arch_layers = {}  # obj -> [(layer, content)] view used by LayerRuleSpec
     spec = {}  # obj -> automaton
@@ -498,6 +498,10 @@ def judge_c13(plan, result):
         kind = op["op"]
         obj = op.get("obj")
         if kind == "scan":
+            if res.get("r") in ("ABORTED", "IOFAULT", "IOFAULT_SWALLOWED") or op.get("abort_at"):
+                # a request cut short on purpose (F12 / F15) is only a predecessor, never judged
+                _bump(st["interrupted"], "scan:" + str(res.get("r")))
+                continue
             cfg = plan["cfgs"][op["cfg"]]
             st["entry_requests"] += 1
             below = cfg["module"] == cfg["root"] or cfg["module"].startswith(cfg["root"] + "/")
@@ -577,6 +581,10 @@ def judge_c13(plan, result):
             if obj in dead:
                 st["dead_before_apply"] += 1
             continue
+        if res["r"] in ("ABORTED", "IOFAULT") or res.get("tainted") or op.get("abort_at"):
+            _bump(st["interrupted"], "apply:" + str(res.get("r")))
+            del spec[obj]  # nothing is specified about a rule object whose evaluation was cut short
+            continue
         st["applies"] += 1
         got = _cls(res)
         st["outcomes"][got] += 1
@@ -626,6 +634,7 @@ def judge_c13(plan, result):
     interleaved = sched[meta.get("n_setup", 0):] != sorted(sched[meta.get("n_setup", 0):])
     st["nontrivial"] = bool(st["judged_must_error"] or st["entry_must_reject"])
     st["faults"] = {"F9_client_interleave": int(interleaved),
+                    "F12_F15_interrupted_predecessor": sum(st["interrupted"].values()),
                     "F10_chain_mutation": st["judged_must_error"] + st["dead_before_apply"],
                     "F1_readdir_order_effective_listings": result["fs"]["unsorted"]}
     st["probes"] = {"chain_kinds": dict(meta.get("chain_kinds") or {})}
